@@ -139,6 +139,15 @@ def get (c : Config) (p : Path) : Option Val := getIn layers c p
 /-- `LayeredConfigTree.freeze` -/
 def freeze (c : Config) : Config := { c with frozen := true }
 
+/-- is the leaf path `p` the key `key` itself or below it (`key.…`) -/
+def under (key : String) (p : Path) : Bool := p == key || (key.toList ++ ['.']).isPrefixOf p.toList
+
+/-- `LayeredConfigTree.__delattr__` / `__delitem__` (`del cfg.a.b`, `del cfg["a"]`): the child is
+removed from `_children` together with everything below it. The library does NOT test `_frozen`
+here (layered_config_tree 4.1.9) – modelled as it is; recorded finding F18. -/
+def delete (c : Config) (key : String) : Config :=
+  { c with entries := c.entries.filter fun e => !under key e.path }
+
 end Config
 
 /-- the layer an `update(<what>, layer=…)` of `configuration.py` writes to (generated table) -/
